@@ -1,7 +1,9 @@
 package vlib
 
 import (
+	"crypto/tls"
 	"fmt"
+	"io"
 	"net/http"
 	"net/url"
 	"runtime/debug"
@@ -14,6 +16,18 @@ import (
 type Req struct {
 	Method string              `json:"method"`
 	Hdr    map[string][]string `json:"hdr,omitempty"`
+	Attr   string              `json:"attr,omitempty"` // one of Attrs, or ""
+}
+
+// Attrs are properties of an http.Request other than its method and headers that a server-side component could
+// look at: protocol version, TLS, Host, path, remote address, a body.
+var Attrs = []string{"h2", "h3", "h1.0", "tls", "host", "path", "remote", "body"}
+
+func (r Req) attrSuffix() string {
+	if r.Attr == "" {
+		return ""
+	}
+	return " [" + r.Attr + "]"
 }
 
 func (r Req) String() string {
@@ -27,7 +41,7 @@ func (r Req) String() string {
 	for _, k := range keys {
 		fmt.Fprintf(&b, " %s=%q", k, r.Hdr[k])
 	}
-	return b.String()
+	return b.String() + r.attrSuffix()
 }
 
 // HTTP builds a fresh *http.Request (header slices are copied: nothing is aliased between executions).
@@ -36,7 +50,28 @@ func (r Req) HTTP() *http.Request {
 	for k, v := range r.Hdr {
 		h[k] = append(make([]string, 0, len(v)), v...)
 	}
-	return &http.Request{Method: r.Method, Header: h, URL: &url.URL{Path: "/"}, Proto: "HTTP/1.1", ProtoMajor: 1, ProtoMinor: 1, Host: "server.test"}
+	q := &http.Request{Method: r.Method, Header: h, URL: &url.URL{Path: "/"}, Proto: "HTTP/1.1", ProtoMajor: 1, ProtoMinor: 1, Host: "server.test"}
+	switch r.Attr {
+	case "h2":
+		q.Proto, q.ProtoMajor, q.ProtoMinor = "HTTP/2.0", 2, 0
+	case "h3":
+		q.Proto, q.ProtoMajor, q.ProtoMinor = "HTTP/3.0", 3, 0
+	case "h1.0":
+		q.Proto, q.ProtoMajor, q.ProtoMinor = "HTTP/1.0", 1, 0
+	case "tls":
+		q.TLS = &tls.ConnectionState{ServerName: "server.test"}
+	case "host":
+		q.Host = "a.example"
+	case "path":
+		q.URL = &url.URL{Path: "/admin/cors", RawQuery: "origin=https://a.example"}
+		q.RequestURI = "/admin/cors?origin=https://a.example"
+	case "remote":
+		q.RemoteAddr = "127.0.0.1:4711"
+	case "body":
+		q.ContentLength = 5
+		q.Body = io.NopCloser(strings.NewReader("hello"))
+	}
+	return q
 }
 
 // Rec is a minimal recording http.ResponseWriter.
